@@ -297,3 +297,31 @@ def register_more(E):
     @E.spec('ALLOW')
     def ALLOW_(I, ctx, e):
         return VSet(Z.func('ALLOW', Z.Obj, Z.SetSort(Z.Str))(e.z), TStr)
+
+
+# ---- normalize_path (C07) ---------------------------------------------------------------
+from pyvc import strs as _strs
+_xs = z3.Const('join!xs', Z.SeqSort(Z.Str))
+_sep = z3.Const('join!sep', Z.Str)
+Z.AXIOMS.add('A-str: join(sep, [""] ++ xs) == sep + join(sep, xs) for non-empty xs',
+             z3.ForAll([_sep, _xs], z3.Implies(z3.Length(_xs) > 0,
+                       _strs.join_fn(_sep, z3.Concat(z3.Unit(z3.StringVal('')), _xs)) ==
+                       z3.Concat(_sep, _strs.join_fn(_sep, _xs))),
+                       patterns=[_strs.join_fn(_sep, z3.Concat(z3.Unit(z3.StringVal('')), _xs))]))
+Z.AXIOMS.add('A-str: join(sep, xs ++ [""]) == join(sep, xs) + sep for non-empty xs',
+             z3.ForAll([_sep, _xs], z3.Implies(z3.Length(_xs) > 0,
+                       _strs.join_fn(_sep, z3.Concat(_xs, z3.Unit(z3.StringVal('')))) ==
+                       z3.Concat(_strs.join_fn(_sep, _xs), _sep)),
+                       patterns=[_strs.join_fn(_sep, z3.Concat(_xs, z3.Unit(z3.StringVal(''))))]))
+
+
+def verify_normalize(pc, E):
+    SEGS = '[x for x in path.split("/") if x]'
+    c = Contract('clastic.route.normalize_path',
+                 params={'path': TStr, 'is_branch': TBool},
+                 ensures=['implies(len(%s) == 0, result == "/")' % SEGS,
+                          'implies(len(%s) > 0, result == "/" + "/".join(%s) + ("/" if is_branch else ""))' % (SEGS, SEGS),
+                          'result.startswith("/")'],
+                 returns=TStr, prop=['C07'])
+    E.add_contract(c, key='clastic.route.normalize_path#verify')
+    pc.add_functions(E, ['clastic.route.normalize_path#verify'])
